@@ -133,6 +133,23 @@ DEQUE_UNITS = [
          lifts=deque_lifts(which=["empty"]), funcs=[_F + "empty"]),
 ]
 
+DEQUE_UNITS += [
+    Unit("deque.lemma.steps", "deque_lemma.c", kind="lemma", loop_contracts=False, min_obligations=15, no_replay=True,
+         funcs=[],
+         doc="over all heaps of <= 4 nodes: FINV => S_OK; each transition asserted in deque.c (pop_left/right, push_left/right, "
+             "node-level back-link write, stabilizing step) keeps the full representation invariant and has the stated effect "
+             "on the abstract sequence; every anchor step changes the word (guarantee within rely)"),
+]
+
+DEQUE_UNITS += [
+    Unit("deque.seq.b4", "deque.c", defines=["U_SEQ"], kind="bounded", unwind=3, loop_contracts=False, no_replay=True,
+         extra_flags=["--unwindset", "harness.0:6,harness.1:6"],
+         lifts=deque_lifts(which=["pop_left", "pop_right", "push_left", "push_right", "empty"]),
+         funcs=[_F + "push_left, push_right, pop_left, pop_right, stabilize, stabilize_left, stabilize_right, dealloc_node, empty"],
+         doc="BOUNDED, single thread, no interference: all operation sequences of length <= 4 plus drain, array-backed LIFO freelist of "
+             "4 nodes, against an array model: per-end order, nothing invented, pop on non-empty succeeds, drained => empty"),
+]
+
 DEQUE_META = {
     "trusted_base": [],
     "assumptions": [],
